@@ -609,6 +609,9 @@ func (c *Chain) fillSync(p *ProposeCtx) {
 		case "few":
 			on = c.Rng.Chance(12)
 		}
+		if on && len(c.Absent) > 0 && p.Epc.CurrentSyncCommittee != nil && c.Absent[p.Epc.CurrentSyncCommittee.Indices[i]] {
+			on = false // validators a scenario keeps offline do not sign sync messages either
+		}
 		if on {
 			bits[i/8] |= 1 << (i % 8)
 			keys = append(keys, memberKey(i))
